@@ -62,7 +62,7 @@ Ltac step_inv H :=
     let Hs := fresh "Hs" in
     destruct (stepo fixed cap s l) as [[? ?]|] eqn:Hs; [|discriminate H];
     inversion H; subst; clear H;
-    destruct l as [p|p c|p|p removed|t ok]; cbn [stepo] in Hs;
+    destruct l as [p|p c|p|p removed|p c|t ok]; cbn [stepo] in Hs;
     [ inv_some
     | destruct (threads s watcher_tid) as [th|] eqn:Hth; [|discriminate Hs];
       destruct (t_pc th) eqn:Hpc; try discriminate Hs;
@@ -72,6 +72,7 @@ Ltac step_inv H :=
       [ cbn [reffix fixed andb] in Hs; destruct (refs s h) as [|r0 rr] eqn:Hrefs; cbn [is_nil negb] in Hs;
         destruct removed; try discriminate Hs; inv_some
       | destruct removed; try discriminate Hs; inv_some ]
+    | inv_some
     | destruct (threads s t) as [th|] eqn:Hth; [|discriminate Hs];
       unfold step_thread in Hs;
       destruct (t_pc th) eqn:Hpc;
